@@ -8,7 +8,9 @@
 2. spec -> code: TLC exports the block table, the decision list and all scenarios of the sandbox-executable scenario
    machine; harness/cmd/addrpolicy gives every listed address to the real onet.RequirePublicIP (4- and 16-byte form)
    and plays every scenario against the real stream / packet handlers with their DEFAULT dialer / validator (Shadowsocks
-   client on loopback, sink sockets on 127.0.0.1, ::1, fd00::2, fe80::..%eth0, 192.0.2.2, fake DNS).
+   client on loopback, sink sockets on 127.0.0.1, ::1, fd00::2, fe80::..%eth0, 192.0.2.2, fake DNS).  Every scenario
+   runs twice: with the handlers' default logger and with a DEBUG-level logger (SetLogger; the binary's -verbose) - the
+   logging level is an environment parameter of the specification that no decision may depend on.
 3. code -> spec: the recorded decisions, sink contacts, metrics statuses are validated line by line by TLC
    (AddrPolicyTrace): property layer = verdict, mechanism layer = drift.
 4. sweep: IPv4 per /24 (quick) or all 2^32 addresses (thorough), both byte forms, and IPv6 by prefix class x boundaries x
@@ -128,11 +130,12 @@ def scenario_around(rows, line):
         end += 1
     sl = rows[start:end]
     beh = []
+    log = sl[0].get("log", "info")
     for r in sl:
         if r["ev"] == "Tcp":
-            beh.append({"a": "Tcp", "d": r["d"], "ans": r["ans"]})
+            beh.append({"a": "Tcp", "log": log, "d": r["d"], "ans": r["ans"]})
         elif r["ev"] == "Pkt":
-            beh.append({"a": "Pkt", "pos": r["pos"], "d": r["d"], "ans": r["ans"]})
+            beh.append({"a": "Pkt", "log": log, "pos": r["pos"], "d": r["d"], "ans": r["ans"]})
     return beh, sl
 
 
@@ -178,10 +181,12 @@ def validate(ctx, table, trace_path, desc, timeout=1800):
                 pos_cls = "pos1:" if row.get("pos") == 1 else "pos>1:"
             tgt = row["a"] if "a" in row and row["ev"] in ("Contact", "Sent") else (
                 d.get("a") if d.get("k") in ("ip", "lit") else [])
-            where = "%s:%s%s/t%s:%s" % (proto, pos_cls, d.get("k"), d.get("t"),
-                                        block_of(table, tgt) if tgt else d.get("h") or "empty")
-            what = "%s: %s request for %s%s -> %s" % (
-                KIND_TEXT[kind], proto.upper(), fmt_dest(d) if d else "?",
+            dbg = first.get("log") == "debug"
+            where = "%s%s:%s%s/t%s:%s" % (proto, "+debuglog" if dbg else "", pos_cls, d.get("k"), d.get("t"),
+                                          block_of(table, tgt) if tgt else d.get("h") or "empty")
+            what = "%s: %s request%s for %s%s -> %s" % (
+                KIND_TEXT[kind], proto.upper(), " (handler logger at DEBUG level)" if dbg else "",
+                fmt_dest(d) if d else "?",
                 (" (datagram %d of the association)" % row["pos"]) if proto == "udp" else "",
                 json.dumps({k: v for k, v in row.items() if k not in ("id",)}))
             rep = {"kind": "scenario", "behaviour": beh, "trace": sl}
@@ -229,6 +234,13 @@ def run(ctx):
     ntcp = sum(1 for b in behs if b[0]["a"] == "Tcp")
     if ntcp < 30 or len(behs) - ntcp < 100:
         raise vlib.Inconclusive("behaviour generation produced only %d TCP / %d UDP scenarios" % (ntcp, len(behs) - ntcp))
+    by_log = {}
+    for b in behs:
+        k = "%s/%s" % ("tcp" if b[0]["a"] == "Tcp" else "udp", b[0].get("log"))
+        by_log[k] = by_log.get(k, 0) + 1
+    if set(by_log) != {"tcp/info", "tcp/debug", "udp/info", "udp/debug"} or by_log["tcp/info"] != by_log["tcp/debug"] \
+            or by_log["udp/info"] != by_log["udp/debug"]:
+        raise vlib.Inconclusive("scenarios are not generated at both logging levels: %r" % by_log)
     tf, af, bf = (os.path.join(ctx.scratch, n) for n in ("table.json", "addrs.json", "behs.json"))
     json.dump(table, open(tf, "w"))
     json.dump(addrs, open(af, "w"))
@@ -307,6 +319,7 @@ def run(ctx):
                         ASSUME,
                         extra={"sweep": sweep_ev, "scenarios": {"tcp": ntcp, "udp_associations": len(behs) - ntcp,
                                                                 "udp_datagrams": info["udp_datagrams"],
+                                                                "by_protocol_and_log_level": by_log,
                                                                 "dns_queries": info["dns_queries"],
                                                                 "sinks": info["sinks_bound"]},
                                "decision_addresses": len(addrs)})
